@@ -353,6 +353,10 @@ Definition tree_step_core (s : tstate) (o : top) (r : tres) : verdict * tstate :
           | LNone => (expect_err r ENotFound 153, s)
           | LNode n =>
             if has_live_handle s (t_id n) then (VSkip, taint s) else
+            if t_is_dir n && is_ancestor s (t_id n) dd (S (length (ts_nodes s)))
+            then (* a directory cannot be moved into itself or below itself: the plain tree has no such move *)
+              (expect_err r EInvalidInput 158, s)
+            else
             match name_check dfinal with
             | Some e => (expect_err r e 154, s)
             | None =>
@@ -367,10 +371,7 @@ Definition tree_step_core (s : tstate) (o : top) (r : tres) : verdict * tstate :
                    match r with ROk => move_node s (t_id n) dd dfinal alias | _ => s end)
                 else (expect_err r EAlreadyExists 155, s)
               | LNone =>
-                if t_is_dir n && is_ancestor s (t_id n) dd (S (length (ts_nodes s)))
-                then (* a directory cannot be moved into itself: the plain tree has no such move *)
-                  (match r with RErr _ => VOk | _ => VBad 158 end, s)
-                else if is_nospace r then (VOk, s)
+                if is_nospace r then (VOk, s)
                 else (match r with ROk => VOk | _ => VBad 157 end,
                       match r with ROk => move_node s (t_id n) dd dfinal alias | _ => s end)
               end
